@@ -123,9 +123,11 @@ def sample_prestates(ctx, contract, unit, n, seed, shapes=None):
     from .engine import _has_quantifier
     for wi, (ex, alias) in enumerate(worlds):
         s = z3.Solver()
-        s.set("timeout", 2000)
+        s.set("timeout", 400)
         s.set("random_seed", rnd.randrange(1 << 30))
         s.add(*[c for c in ex.pc if not _has_quantifier(c)])
+        t_start = time.time()
+        budget = 12.0 if n <= 60 else 90.0
         names = list(ex.inputs.items())
         # element type invariants of object-list field arrays, instantiated for the elements the harness will build
         for name, t in names:
@@ -151,6 +153,9 @@ def sample_prestates(ctx, contract, unit, n, seed, shapes=None):
                 small.append(z3.Length(t) <= 4)
             elif z3.is_seq(t):
                 small.append(z3.Length(t) <= 4)
+                if srt == ops.IntSeq:
+                    for i in range(4):
+                        small.append(z3.Implies(z3.Length(t) > i, z3.And(t[i] >= -1, t[i] <= 12)))
             elif srt == ops.Val:
                 small.append(z3.Or(z3.Not(ops.Val.is_IntV(t)), z3.And(ops.Val.iv(t) >= -1, ops.Val.iv(t) <= 12)))
                 small.append(z3.Or(z3.Not(ops.Val.is_StrV(t)), z3.Length(ops.Val.sv(t)) <= 4))
@@ -204,6 +209,8 @@ def sample_prestates(ctx, contract, unit, n, seed, shapes=None):
                             out.append(e == ops.Val.BoolV(rnd.choice([True, False])))
             return out
         for got in range(per):
+            if time.time() - t_start > budget / len(worlds):
+                break
             s.push()
             order = names[:]
             rnd.shuffle(order)
